@@ -520,6 +520,12 @@ pub fn run_shard(
 // ---------------------------------------------------------------------------
 // parent: orchestrates shards, replays, evidence
 
+static SERIAL: std::sync::atomic::AtomicU64 = std::sync::atomic::AtomicU64::new(0);
+/// Process-unique serial number (scratch directory names).
+pub fn next_serial() -> u64 {
+    SERIAL.fetch_add(1, std::sync::atomic::Ordering::Relaxed)
+}
+
 pub fn cache_dir() -> PathBuf {
     verif_root().join(".cache")
 }
